@@ -312,7 +312,7 @@ pub fn new_monitor() -> C01 {
 }
 
 pub fn run(p: &Params) -> Report {
-    let total = p.n(400, 8000);
+    let total = p.n(1600, 40000);
     let mine = p.share(total);
     let mut rng = Rng::new(p.shard_seed() ^ 0xC01);
     let mut mon = new_monitor();
